@@ -242,6 +242,10 @@ func (e *Exec) assign(l ast.Expr, v Val) {
 			}
 		}
 		e.st.vars[obj] = v
+		// a boxed local (its address was taken): keep the pointee in step
+		if p, ok := e.st.vars["box:"+keyString(obj)]; ok {
+			e.storeDeref(p, obj.Type(), v)
+		}
 	case *ast.SelectorExpr:
 		sel, ok := e.info().Selections[x]
 		if !ok || sel.Kind() != types.FieldVal {
